@@ -136,10 +136,13 @@ func (cb *CircuitBreaker) transitionToOpen() {
 }
 
 func (cb *CircuitBreaker) transitionToHalfOpen() {
-	cb.state.Store(int32(CircuitHalfOpen))
-	cb.failures.Store(0)
-	cb.successes.Store(0)
-	cb.halfOpenRequests.Store(0)
+	// Only the caller that moves the breaker out of Open starts the half-open phase.
+	// Concurrent callers that also saw Open must not reset the probe counter again,
+	// or each of them would be admitted as the first probe. The success and probe
+	// counters were already cleared when the breaker opened.
+	if cb.state.CompareAndSwap(int32(CircuitOpen), int32(CircuitHalfOpen)) {
+		cb.failures.Store(0)
+	}
 }
 
 func (cb *CircuitBreaker) transitionToClosed() {
